@@ -42,7 +42,7 @@ CLA_RULE = ("one evaluation = one seeded trace over {register, register same add
             "failed start or peer loss happened; distinct = distinct canonical log (listing + per-adapter Start/Close history after every step).")
 
 STORE_RULE = ("one evaluation = one seeded operation sequence over {push bundle, push fragment (grid-aligned and odd ranges: exact covers, overlaps, containment, duplicates), "
-              "two concurrent fragment pushes released in a seeded order at the store's write hooks, update pending/property/expiry, delete, expiry sweep, advance, close+reopen}, "
+              "two concurrent fragment pushes released in a seeded order at the store's write hooks, update pending/property/expiry, a metadata update through an item fetched before the record was deleted / swept, delete, expiry sweep, advance, close+reopen}, "
               "with a crash armed at the 1st..3rd instrumented point inside 30% of the pushes/deletes (half of them: the directory is copied while the operation is parked there and a store - in a third of the runs a whole "
               "node - is opened on the copy, then the operation completes; the other half: the operation is aborted at that point for good, the store is closed and reopened on the surviving directory and the run goes on); compared with an in-memory reference map after every operation. Non-trivial = a crash point, an interleaving "
               "or a reopen happened; distinct = distinct canonical log.")
@@ -146,7 +146,7 @@ PROPS = {
             "real": ["storage.Store on badgerhold/badger with real files under /dev/shm", "storage.BundleItem/BundlePart (part files, Load, IsComplete)", "bpv7 reassembly as used by the store", "routing.Core started on the post-crash directory"],
             "stub": ["OS crash: directory copied while the operation is parked at a hook (process-kill model: every completed write survives)", "disk faults below the file API: not injected"],
             "assumptions": COMMON_ASSUME + ["part files are referenced by absolute path in the index; the post-crash store reads them from the live directory at the instant of the crash (unchanged while the operation is parked)"],
-            "required_probes": ["crash_point", "crash_in_place", "reopen", "rmw_interleave", "complete_record_loaded"]},
+            "required_probes": ["crash_point", "crash_in_place", "reopen", "rmw_interleave", "complete_record_loaded", "update_of_deleted_record"]},
     "C16": {"pkg": "pkg/cla", "binary": "cla.test", "harness": "cla", "focus": "C16", "variants": [""],
             "budget": {"quick": 40, "thorough": 900}, "level": "exploration", "rule": CLA_RULE,
             "real": ["cla.Manager (handler goroutine, retry ticker, registration table)", "convergenceElem activate/deactivate/handler"],
